@@ -479,7 +479,7 @@ pub(crate) mod c19 {
     /// `verify_usage` (private): the policy of the certificate's position. The verifier only knows the
     /// depth: depth 0 is either a leaf or a root validated on its own, depth d > 0 is an authority with d-1
     /// intermediates below it. Ok <=> the certificate satisfies the policy of a position its depth allows.
-    // TIER: quick
+    // TIER: quick   ALSO: C01
     // KIND: complete
     #[kani::proof]
     #[kani::unwind(4)]
@@ -549,7 +549,7 @@ pub(crate) mod c19 {
     /// `add_cert(parent)`: one step of the path, the current certificate is checked against the authority
     /// above it. Ok <=> link /\ signature /\ validity /\ profile of the position. Because an authority
     /// follows, a current certificate at depth 0 is the chain's leaf.
-    // TIER: quick
+    // TIER: quick   ALSO: C01
     // KIND: complete
     #[kani::proof]
     #[kani::unwind(4)]
@@ -621,7 +621,7 @@ pub(crate) mod c19 {
 
     /// `finalise`: the current certificate is the root and must verify against itself. At depth 0 this is
     /// the validation of a root on its own.
-    // TIER: quick
+    // TIER: quick   ALSO: C01
     // KIND: complete
     #[kani::proof]
     #[kani::unwind(4)]
@@ -681,7 +681,7 @@ pub(crate) mod c19 {
 
     /// The chain as every caller drives it (`Case::validate_certs`, `FailSafe::validate_certs`):
     /// start at the leaf, `add_cert` each authority, `finalise` on the root; with and without intermediate.
-    // TIER: thorough
+    // TIER: quick!   ALSO: C01
     // KIND: complete
     #[kani::proof]
     #[kani::unwind(4)]
@@ -789,7 +789,7 @@ pub(crate) mod c01 {
     /// Ok => the NOC names this fabric, the ICAC (if it names a fabric at all) names this fabric, and the chain
     /// NOC [-> ICAC] -> root verifies step by step against THIS fabric's root, which verifies against itself.
     /// Conversely a valid chain of this fabric is accepted.
-    // TIER: thorough
+    // TIER: quick!
     // KIND: complete
     #[kani::proof]
     #[kani::unwind(4)]
